@@ -163,13 +163,21 @@ for D in (2, 3):
           wrapper=('void', 'CS<%d>* ret, CS<%d> const* self' % (D-1, D), 'new(ret) CS<%d>(self->flatted());' % (D-1)),
           cxx={'self': SUB(D), 'ret': SUB(D-1)}, ghosts=ghosts_fn(D) + [(I64, 'g_p')],
           requires=[WF('self', D), 'self->base_ != 0', ' && '.join('g_f%d == 0' % k for k in range(D)), 'g_n1 > 0',
-                    'self->stride_ == self->sub_.nelems_', '0 <= g_p && g_p < MUL(g_n0, g_n1)'],
+                    'g_n0 <= 1 || self->stride_ == self->sub_.nelems_', '0 <= g_p && g_p < MUL(g_n0, g_n1)'],
           lemmas=WF_lemmas('self', D, dims=[0, 1]) + ['LEMMA_MUL0(self->stride_)', 'LEMMA_MUL0(self->sub_.stride_)',
                   'LEMMA_SWAP(g_n1, self->sub_.stride_, g_n0)', 'LEMMA_COMM(g_n1, g_n0)', 'LEMMA_DIVMOD(g_p, g_n1)', 'LEMMA_REMRANGE(g_p, g_n1)',
-                  'LEMMA_DIST(MUL(%s, g_n1), %s, self->sub_.stride_)' % (A, B), 'LEMMA_ASSOC(%s, g_n1, self->sub_.stride_)' % A],
+                  'LEMMA_DIST(MUL(%s, g_n1), %s, self->sub_.stride_)' % (A, B), 'LEMMA_ASSOC(%s, g_n1, self->sub_.stride_)' % A,
+                  'LEMMA_DIVADD(0, g_p, g_n1)', 'LEMMA_MUL0(g_n1)', 'LEMMA_MUL1(g_n1)', 'LEMMA_MUL1(MUL(g_n1, self->sub_.stride_))'],
           ensures=[('leading dimension of the result has size n0*n1 and the stride of the second dimension',
                     'ret->stride_ == self->sub_.stride_ && ret->offset_ == 0 && ret->nelems_ == MUL(MUL(g_n0, g_n1), ret->stride_)'),
                    ('inner dimensions untouched, same first element', 'ret->base_ == self->base_ && ' + (' && '.join(same_dim('ret', k-1, 'self', k) for k in range(2, D)) or '1')),
                    ('element p of the result is element (p / n1, p % n1) of self',
                     '%s == (self->base_ + (MUL(%s, self->stride_) - self->offset_) + (MUL(%s, self->sub_.stride_) - self->sub_.offset_))' % (addr0('ret', 'g_p'), A, B))],
           assigns=['*ret'], mode='uf')
+
+# every view-forming operation hands the 0-dimensional leaf layout on unchanged (its nelems_ == 1 is what num_elements() multiplies up)
+import re as _re2
+for _c in list(CHECKS.values()):
+    if _c.group == 'subarray' and 'ret' in _c.cxx and 'self' in _c.cxx and _c.id.startswith('S') and not _c.misuse:
+        dr = int(_re2.search(r',(\d+)', _c.cxx['ret']).group(1)); ds = int(_re2.search(r',(\d+)', _c.cxx['self']).group(1))
+        _c.ensures.append(('0-dimensional leaf layout handed on unchanged', '%s == %s' % (lp('ret', dr, 'nelems_'), lp('self', ds, 'nelems_'))))
